@@ -177,7 +177,10 @@ def psd(height, dx, window=None):
 
     """
     window = make_window(height, dx, window)
-    ft = fft.ifftshift(fft.fft2(fft.fftshift(height * window)))
+    # ifftshift moves the origin sample (n//2) to index 0 for the FFT, fftshift moves
+    # zero frequency back to n//2 so that the array lines up with forward_ft_unit below;
+    # the two are only interchangeable for even-length axes
+    ft = fft.fftshift(fft.fft2(fft.ifftshift(height * window)))
     psd = abs(ft)**2  # mag squared first as per GH_FFT
 
     fs = 1 / dx
